@@ -100,12 +100,12 @@ def rule_workers(ctx):
         bad = [t for _, t in Q.calls(wl, ["::pop", "::rev", "swap_remove", "sort", "::reverse", "Vec::<T, A>::remove", "::last", "next_back", "::rotate", "::swap"])]
         ctx.check(not bad, "R3", fam + ":worker_loop:order", "no reordering operation on received packets",
                   "worker_loop reorders queued packets via %s" % [T.short(callee_of(t)) for t in bad], ctx.loc(wl))
-        recvs = Q.calls(wl, ["recv_timeout", "try_recv"])
+        recvs = Q.calls(wl, ["recv_timeout", "try_recv", "::try_iter"])
         ctx.check(len(recvs) >= 2, "R3", fam + ":worker_loop:recv", "%d receive sites (blocking first, non-blocking fill)" % len(recvs),
                   "receive structure not recognised", ctx.loc(wl))
         if fam in ("http", "tls"):
             drains = Q.calls(wl, "::drain")
-            pushes = Q.calls(wl, "Vec::<T, A>::push")
+            pushes = Q.calls(wl, "Vec::<T, A>::push") + [(b_, t_) for b_, t_ in wl.calls() if callee_of(t_).endswith("::extend") and "Vec" in callee_of(t_)]
             okd = False
             for blk, t in drains:
                 a = Q.call_args(wl, S, blk, t)
